@@ -135,12 +135,25 @@ def concrete_inputs(cfg, vals, growth):
 def run_real(cfg, vals, growth):
     """the real Optimizer with real PuLP + CBC, all stages; returns (status, percent_fed, values dict name->float) or raises AssertionError"""
     import src.optimizer.optimizer as om
+    import os
+    import tempfile
+    import contextlib
+    import io
     consts, tc, pins = concrete_inputs(cfg, vals, growth)
     o = om.Optimizer(consts, tc)
-    if cfg["opt"] == "to_humans":
-        model, variables, mc, pf = o.optimize_to_humans(consts, tc)
-    else:
-        model, variables, mc, pf = o.optimize_feed_to_animals(consts, tc, pins)
+    cwd = os.getcwd()
+    tmp = tempfile.mkdtemp(prefix="vp_replay_")     # a failing solve makes the code write model.json into the current directory
+    os.chdir(tmp)
+    try:
+        with contextlib.redirect_stdout(io.StringIO()):
+            if cfg["opt"] == "to_humans":
+                model, variables, mc, pf = o.optimize_to_humans(consts, tc)
+            else:
+                model, variables, mc, pf = o.optimize_feed_to_animals(consts, tc, pins)
+    finally:
+        os.chdir(cwd)
+        import shutil
+        shutil.rmtree(tmp, ignore_errors=True)
     out = {}
     for k, v in variables.items():
         if isinstance(v, list):
